@@ -897,6 +897,478 @@ func checkC03(c *Ctx, r *Report) {
 		}
 		r8.Check(n >= 1, fk+": hands the reservation on", f.Pos(), n, "", "the reservation never reaches the next level", "")
 	}
+
+	// ---- R9 ---------------------------------------------------------------
+	r9 := r.Rule("C03-R9", "E7b", 10, "limit tests are exact: in the admission functions every comparison of a prospective total with a configured limit refuses exactly when the total is greater than the limit (refusing at the limit wastes the last unit the statement grants; admitting above it exceeds the limit)")
+	limitShape(c, r9, 7, m("resources", "addStreams"), m("resources", "addConns"), m("resources", "checkMemory"), m("connLimiter", "addConn"))
+
+	// ---- R10 --------------------------------------------------------------
+	r10 := r.Rule("C03-R10", "E7b/E8", 4, "scope retirement: IncRef / DecRef move the reference count by exactly one; IsUnused answers true exactly when the scope is done, or is not referenced and holds no stream, connection or descriptor (a scope collected while it holds something starts again from zero: its holders are then charged to nobody)")
+	for _, k := range []struct {
+		fn string
+		op token.Token
+	}{{"IncRef", token.ADD}, {"DecRef", token.SUB}} {
+		f := r10.need(m("resourceScope", k.fn))
+		if f == nil {
+			continue
+		}
+		sts := findInstrs(f, fieldWritePred(rsT+".refCnt"))
+		okD := len(sts) == 1
+		if okD {
+			bo, isB := resolveLoad(strip(sts[0].(*ssa.Store).Val)).(*ssa.BinOp)
+			okD = isB && isLoadOfField(rsT+".refCnt")(strip2(bo.X))
+			if okD {
+				kv, isC := constInt(bo.Y)
+				okD = isC && ((bo.Op == k.op && kv == 1) || (bo.Op != k.op && (bo.Op == token.ADD || bo.Op == token.SUB) && kv == -1))
+			}
+		}
+		r10.Check(okD, m("resourceScope", k.fn)+": refCnt moves by exactly one in the right direction", f.Pos(), 1, "", "a scope with live children is collected, or an idle one never is", "")
+	}
+	if f := r10.need(m("resourceScope", "BeginSpan")); f != nil {
+		sts := findInstrs(f, func(in ssa.Instruction) bool {
+			st, ok := in.(*ssa.Store)
+			if !ok || !isFieldWrite(in, rsT+".refCnt") {
+				return false
+			}
+			bo, isB := resolveLoad(strip(st.Val)).(*ssa.BinOp)
+			kv, isC := int64(0), false
+			if isB {
+				kv, isC = constInt(bo.Y)
+			}
+			return isB && isC && bo.Op == token.ADD && kv == 1 && isLoadOfField(rsT+".refCnt")(strip2(bo.X))
+		})
+		w, n := (&Cut{Fn: f, Sep: inSet(sts), Target: func(in ssa.Instruction) bool {
+			ret, ok := in.(*ssa.Return)
+			return ok && isSuccessReturn(ret)
+		}}).Run(c)
+		r10.Check(w == "" && len(sts) >= 1, m("resourceScope", "BeginSpan")+": a span counts as a reference to its owner", f.Pos(), n+1, "", "the span's Done drops a reference that was never taken", w)
+	}
+	rmT := rmP + ".resourceManager"
+	incK := m("resourceScope", "IncRef")
+	for _, g := range []struct{ fn, mp, ctor string }{
+		{m("resourceManager", "getServiceScope"), rmT + ".svc", rmP + ".newServiceScope"},
+		{m("resourceManager", "getProtocolScope"), rmT + ".proto", rmP + ".newProtocolScope"},
+		{m("resourceManager", "getPeerScope"), rmT + ".peer", rmP + ".newPeerScope"},
+		{m("serviceScope", "getPeerScope"), rmP + ".serviceScope.peers", rmP + ".newResourceScope"},
+		{m("protocolScope", "getPeerScope"), rmP + ".protocolScope.peers", rmP + ".newResourceScope"},
+	} {
+		if f := r10.need(g.fn); f != nil {
+			r10.lookupOrCreate(f, g.mp, g.ctor, incK)
+		}
+	}
+	if f := r10.need(m("resourceScope", "IsUnused")); f != nil {
+		fieldName := func(v ssa.Value) string {
+			v = resolveLoad(strip2(v))
+			if fv, ok := v.(*ssa.Field); ok {
+				if st, isSt := fv.X.Type().Underlying().(*types.Struct); isSt {
+					return st.Field(fv.Field).Name()
+				}
+			}
+			if fl, _ := loadOfField(v); fl != nil {
+				return fl.Name()
+			}
+			return ""
+		}
+		names := []string{"done", "refCnt", "NumStreamsInbound", "NumStreamsOutbound", "NumConnsInbound", "NumConnsOutbound", "NumFD"}
+		var atoms []atomPred
+		for _, nm := range names {
+			nm := nm
+			atoms = append(atoms, func(v ssa.Value) (bool, bool) {
+				if nm == "done" {
+					return fieldName(v) == "done", true
+				}
+				bo, ok := v.(*ssa.BinOp)
+				if !ok {
+					return false, false
+				}
+				x, y, op := bo.X, bo.Y, bo.Op
+				if z0, isC0 := constInt(x); isC0 && z0 == 0 { // 0 < refCnt, 0 == NumFD
+					x, y = y, x
+					switch op {
+					case token.LSS:
+						op = token.GTR
+					case token.GTR:
+						op = token.LSS
+					case token.LEQ:
+						op = token.GEQ
+					case token.GEQ:
+						op = token.LEQ
+					}
+				}
+				z, isC := constInt(y)
+				if !isC || z != 0 || fieldName(x) != nm {
+					return false, false
+				}
+				bo = &ssa.BinOp{Op: op, X: x, Y: y}
+				if nm == "refCnt" { // atom: refCnt > 0
+					switch bo.Op {
+					case token.GTR:
+						return true, true
+					case token.LEQ:
+						return true, false
+					}
+					return false, false
+				}
+				switch bo.Op { // atom: field == 0
+				case token.EQL:
+					return true, true
+				case token.NEQ:
+					return true, false
+				}
+				return false, false
+			})
+		}
+		tab, okT := boolReturnTable(f, atoms, 0)
+		bad := ""
+		for a := 0; a < 1<<len(atoms) && okT; a++ {
+			want := 1
+			if a&1 != 0 || (a&2 == 0 && a&0x7c == 0x7c) {
+				want = 2
+			}
+			if got, seen := tab[a]; seen && got != want && bad == "" {
+				bad = fmt.Sprintf("with done=%v referenced=%v zero-counters=%05b the answer can be %s", a&1 != 0, a&2 != 0, a>>2, []string{"", "false", "true", "false or true"}[got])
+			}
+		}
+		r10.Check(okT && bad == "" && len(tab) > 0, m("resourceScope", "IsUnused")+": true exactly when done, or unreferenced with every counter at zero", f.Pos(), len(tab), "", "a scope that still holds something is collected (its holders are then charged to nobody), or an idle one never is", bad)
+	}
+
+	// ---- R11 --------------------------------------------------------------
+	r11 := r.Rule("C03-R11", "E1/E8", 40, "release completeness: every release entry point takes the amount off its own counters and hands it to what constrains the scope (the owner, or every edge); Done returns the whole balance, zeroes the counters and marks the scope; the base counters move by exactly the amount given")
+	// (a) base counters: x += n on the accepting paths of the add functions, x -= n in the remove functions
+	delta := func(fn string, op token.Token, pairs ...string) {
+		f := r11.need(m("resources", fn))
+		if f == nil {
+			return
+		}
+		for i := 0; i+1 < len(pairs); i += 2 {
+			field, pname := pairs[i], pairs[i+1]
+			// (the amount is the (i/2+1)-th parameter after the receiver, whatever it is called)
+			var p *ssa.Parameter
+			if k := i/2 + 1; k < len(f.Params) {
+				p = f.Params[k]
+			}
+			sts := findInstrs(f, func(in ssa.Instruction) bool {
+				st, ok := in.(*ssa.Store)
+				if !ok || !isFieldWrite(in, resT+"."+field) || p == nil {
+					return false
+				}
+				bo, isB := resolveLoad(strip(st.Val)).(*ssa.BinOp)
+				if !isB || bo.Op != op || !isLoadOfField(resT+"."+field)(strip2(bo.X)) {
+					return false
+				}
+				y := resolveLoad(strip2(bo.Y))
+				return y == ssa.Value(p) || isParamCellLoad(c, y, p)
+			})
+			tgt := func(in ssa.Instruction) bool {
+				ret, ok := in.(*ssa.Return)
+				return ok && (errResultIndex(f) < 0 || isSuccessReturn(ret))
+			}
+			w, n := (&Cut{Fn: f, Target: tgt, Sep: inSet(sts)}).Run(c)
+			r11.Check(w == "" && len(sts) >= 1, fmt.Sprintf("%s: %s %s= %s on every accepting path", m("resources", fn), field, op, pname), f.Pos(), n+1, "", "the counter no longer is the sum of what its holders were charged", w)
+		}
+	}
+	delta("reserveMemory", token.ADD, "memory", "size")
+	delta("releaseMemory", token.SUB, "memory", "size")
+	delta("addStreams", token.ADD, "nstreamsIn", "incount", "nstreamsOut", "outcount")
+	delta("removeStreams", token.SUB, "nstreamsIn", "incount", "nstreamsOut", "outcount")
+	delta("addConns", token.ADD, "nconnsIn", "incount", "nconnsOut", "outcount", "nfd", "fdcount")
+	delta("removeConns", token.SUB, "nconnsIn", "incount", "nconnsOut", "outcount", "nfd", "fdcount")
+	// (b) scope level: unless the scope is done, each of these calls lies on every path to the return
+	isDone := edgeBool(func(v ssa.Value) bool { return isLoadOfField(rsT + ".done")(strip2(v)) }, true)
+	ownerNil := func(wantNil bool) EdgePred {
+		return edgeNil(func(v ssa.Value) bool { return isLoadOfField(rsT + ".owner")(strip2(v)) }, wantNil)
+	}
+	type req struct {
+		fn    string
+		calls []string // must-pass unless done
+		owner string   // on the owner != nil side
+		edge  string   // once per edge on the other side
+	}
+	for _, q := range []req{
+		{"ReleaseMemory", []string{m("resources", "releaseMemory"), m("resourceScope", "releaseMemoryForEdges")}, "", ""},
+		{"ReleaseMemoryForChild", []string{m("resources", "releaseMemory")}, "", ""},
+		{"releaseMemoryForEdges", nil, m("resourceScope", "ReleaseMemory"), m("resourceScope", "ReleaseMemoryForChild")},
+		{"RemoveStream", []string{m("resources", "removeStream"), m("resourceScope", "removeStreamForEdges")}, "", ""},
+		{"RemoveStreamForChild", []string{m("resources", "removeStream")}, "", ""},
+		{"removeStreamForEdges", nil, m("resourceScope", "RemoveStream"), m("resourceScope", "RemoveStreamForChild")},
+		{"RemoveConn", []string{m("resources", "removeConn"), m("resourceScope", "removeConnForEdges")}, "", ""},
+		{"RemoveConnForChild", []string{m("resources", "removeConn")}, "", ""},
+		{"removeConnForEdges", nil, m("resourceScope", "RemoveConn"), m("resourceScope", "RemoveConnForChild")},
+		{"ReleaseForChild", []string{m("resources", "releaseMemory"), m("resources", "removeStreams"), m("resources", "removeConns")}, "", ""},
+		{"ReleaseResources", []string{m("resources", "releaseMemory"), m("resources", "removeStreams"), m("resources", "removeConns")}, m("resourceScope", "ReleaseResources"), m("resourceScope", "ReleaseForChild")},
+		{"Done", []string{m("resourceScope", "doneUnlocked")}, "", ""},
+		{"doneUnlocked", nil, m("resourceScope", "ReleaseResources") + "+" + m("resourceScope", "DecRef"), m("resourceScope", "ReleaseForChild") + "+" + m("resourceScope", "DecRef")},
+	} {
+		f := r11.need(m("resourceScope", q.fn))
+		if f == nil {
+			continue
+		}
+		for _, k := range q.calls {
+			calls := findInstrs(f, callPred(k))
+			w, n := (&Cut{Fn: f, Target: isRetInstr, Sep: inSet(calls), EdgeCut: isDone}).Run(c)
+			r11.Check(w == "" && len(calls) >= 1, fmt.Sprintf("%s: calls %s unless the scope is done", m("resourceScope", q.fn), calleeShort0(k)), f.Pos(), n+1, "", "what was released stays charged here (or above): the counters never return to zero", w)
+		}
+		if q.owner == "" {
+			continue
+		}
+		var fromOwner, fromEdges []CFGEdge
+		for _, b := range blocksDeep(f) {
+			for si := range b.Succs {
+				if ownerNil(false)(b, si) {
+					fromOwner = append(fromOwner, CFGEdge{b, si})
+				}
+				if ownerNil(true)(b, si) {
+					fromEdges = append(fromEdges, CFGEdge{b, si})
+				}
+			}
+		}
+		if len(fromOwner) == 0 || len(fromEdges) == 0 {
+			r11.Fail(m("resourceScope", q.fn)+": owner test", f.Pos(), "no `s.owner != nil` test found", "")
+			continue
+		}
+		for _, k := range strings.Split(q.owner, "+") {
+			calls := findInstrs(f, func(in ssa.Instruction) bool {
+				return isCallTo(in, k) && isLoadOfField(rsT+".owner")(strip2(callArgs(in.(ssa.CallInstruction))[0]))
+			})
+			w, n := (&Cut{Fn: f, FromEdges: fromOwner, Target: isRetInstr, Sep: inSet(calls)}).Run(c)
+			r11.Check(w == "" && len(calls) >= 1, fmt.Sprintf("%s: a span hands the release to its owner (%s)", m("resourceScope", q.fn), calleeShort0(k)), f.Pos(), n+1, "", "the owner keeps the charge", w)
+		}
+		for _, k := range strings.Split(q.edge, "+") {
+			calls := findInstrs(f, func(in ssa.Instruction) bool {
+				if !isCallTo(in, k) {
+					return false
+				}
+				h := iterationOf(in.Parent(), in.Block())
+				return h != nil && isLoadOfField(rsT+".edges")(strip2(rangedOverOf(h)))
+			})
+			okE := len(calls) >= 1
+			w := ""
+			n := 0
+			if okE {
+				h := iterationOf(calls[0].Parent(), calls[0].Block())
+				// every iteration makes the call ...
+				var body []CFGEdge
+				for si, sc := range h.Succs {
+					if sc.Dominates(calls[0].Block()) || sc == calls[0].Block() {
+						body = append(body, CFGEdge{h, si})
+					}
+				}
+				w, n = (&Cut{Fn: calls[0].Parent(), FromEdges: body, Sep: inSet(calls), Target: func(in ssa.Instruction) bool {
+					return isRetInstr(in) || (in.Block() == h && instrIndex(in) == 0)
+				}}).Run(c)
+				// ... and the loop is reached whenever there is no owner
+				if w == "" {
+					w, _ = (&Cut{Fn: f, FromEdges: fromEdges, Target: isRetInstr, Sep: func(in ssa.Instruction) bool { return in.Block() == h }}).Run(c)
+				}
+			}
+			r11.Check(okE && w == "", fmt.Sprintf("%s: without an owner, every edge gets the release (%s)", m("resourceScope", q.fn), calleeShort0(k)), f.Pos(), n+1, "", "a constraining scope keeps the charge", w)
+		}
+	}
+	if f := r11.need(m("resourceScope", "doneUnlocked")); f != nil {
+		for _, fld := range []string{"nstreamsIn", "nstreamsOut", "nconnsIn", "nconnsOut", "nfd", "memory"} {
+			sts := findInstrs(f, func(in ssa.Instruction) bool {
+				st, ok := in.(*ssa.Store)
+				if !ok || !isFieldWrite(in, resT+"."+fld) {
+					return false
+				}
+				z, isC := constInt(st.Val)
+				return isC && z == 0
+			})
+			w, n := (&Cut{Fn: f, Target: isRetInstr, Sep: inSet(sts), EdgeCut: isDone}).Run(c)
+			r11.Check(w == "" && len(sts) >= 1, m("resourceScope", "doneUnlocked")+": "+fld+" = 0", f.Pos(), n+1, "", "a finished scope still reports what it handed back", w)
+		}
+		sts := findInstrs(f, func(in ssa.Instruction) bool {
+			st, ok := in.(*ssa.Store)
+			if !ok || !isFieldWrite(in, rsT+".done") {
+				return false
+			}
+			b, isC := constBool(st.Val)
+			return isC && b
+		})
+		w, n := (&Cut{Fn: f, Target: isRetInstr, Sep: inSet(sts), EdgeCut: isDone}).Run(c)
+		r11.Check(w == "" && len(sts) >= 1, m("resourceScope", "doneUnlocked")+": done = true", f.Pos(), n+1, "", "a second Done returns the balance twice", w)
+	}
+	// the direction decides which counter a single stream / connection comes off
+	for _, k := range []struct{ fn, callee string }{{"removeStream", "removeStreams"}, {"removeConn", "removeConns"}, {"addStream", "addStreams"}, {"addConn", "addConns"}} {
+		f := r11.need(m("resources", k.fn))
+		if f == nil {
+			continue
+		}
+		isIn := eqEdge(func(v ssa.Value) bool { return isParamVar(c, v, "dir") }, func(v ssa.Value) bool { kk, ok := constInt(v); return ok && kk == 1 }, true)
+		okDir := true
+		nc := 0
+		for _, call := range callsIn(f, m("resources", k.callee)) {
+			nc++
+			a := callArgs(call)
+			i0, c0 := constInt(a[1])
+			o0, c1 := constInt(a[2])
+			if !c0 || !c1 || i0+o0 != 1 {
+				okDir = false
+				continue
+			}
+			// inbound count 1 only on the dir == DirInbound edge, outbound only off it
+			w, _ := (&Cut{Fn: f, Target: isInstr(call.(ssa.Instruction)), EdgeCut: func(b *ssa.BasicBlock, s int) bool {
+				if i0 == 1 {
+					return isIn(b, s)
+				}
+				return eqEdge(func(v ssa.Value) bool { return isParamVar(c, v, "dir") }, func(v ssa.Value) bool { kk, ok := constInt(v); return ok && kk == 1 }, false)(b, s)
+			}}).Run(c)
+			if w != "" {
+				okDir = false
+			}
+		}
+		r11.Check(okDir && nc == 2, m("resources", k.fn)+": inbound moves the inbound counter, anything else the outbound one", f.Pos(), nc, "", "streams / connections are released from the counter they were not added to", "")
+	}
+
+	// ---- R12 --------------------------------------------------------------
+	r12 := r.Rule("C03-R12", "E2", 12, "re-parenting keeps the reference counts balanced: a scope obtained for the attachment is remembered in its field; when the attachment is refused the reference is dropped and the field cleared before the error is returned; on success the transient scope the connection / stream leaves loses its reference")
+	decK := m("resourceScope", "DecRef")
+	for _, q := range []struct {
+		fn        string
+		gets      []string // getter -> field it is remembered in
+		transient bool
+	}{
+		{m("connectionScope", "SetPeer"), []string{m("resourceManager", "getPeerScope"), rmP + ".connectionScope.peer"}, true},
+		{m("streamScope", "SetProtocol"), []string{m("resourceManager", "getProtocolScope"), rmP + ".streamScope.proto", m("protocolScope", "getPeerScope"), rmP + ".streamScope.peerProtoScope"}, true},
+		{m("streamScope", "SetService"), []string{m("resourceManager", "getServiceScope"), rmP + ".streamScope.svc", m("serviceScope", "getPeerScope"), rmP + ".streamScope.peerSvcScope"}, false},
+	} {
+		f := r12.need(q.fn)
+		if f == nil {
+			continue
+		}
+		failing := func(in ssa.Instruction) bool {
+			ret, ok := in.(*ssa.Return)
+			return ok && !isNilConst(retVal(ret, 0))
+		}
+		succeeding := func(in ssa.Instruction) bool {
+			ret, ok := in.(*ssa.Return)
+			return ok && isNilConst(retVal(ret, 0))
+		}
+		for i := 0; i+1 < len(q.gets); i += 2 {
+			getK, field := q.gets[i], q.gets[i+1]
+			gets := findInstrs(f, callPred(getK))
+			if len(gets) != 1 {
+				r12.Fail(q.fn+": obtains "+calleeShort0(getK), f.Pos(), fmt.Sprintf("%d calls, expected one", len(gets)), "")
+				continue
+			}
+			g := gets[0]
+			remembered := findInstrs(f, func(in ssa.Instruction) bool {
+				st, ok := in.(*ssa.Store)
+				return ok && isFieldWrite(in, field) && resolveLoad(strip(st.Val)) == g.(ssa.Value)
+			})
+			r12.mustPass(f, q.fn+": the scope obtained is remembered in "+field, &Cut{Fn: f, From: []ssa.Instruction{g}, Target: isRetInstr, Sep: inSet(remembered)}, 1)
+			drops := findInstrs(f, func(in ssa.Instruction) bool {
+				return isCallTo(in, decK) && derivesFrom(callArgs(in.(ssa.CallInstruction))[0], isLoadOfField(field))
+			})
+			r12.mustPass(f, q.fn+": a refused attachment drops the reference to "+field, &Cut{Fn: f, From: []ssa.Instruction{g}, Target: failing, Sep: inSet(drops)}, len(drops))
+			clears := findInstrs(f, func(in ssa.Instruction) bool {
+				st, ok := in.(*ssa.Store)
+				return ok && isFieldWrite(in, field) && isNilConst(st.Val)
+			})
+			r12.mustPass(f, q.fn+": a refused attachment clears "+field, &Cut{Fn: f, From: []ssa.Instruction{g}, Target: failing, Sep: inSet(clears)}, len(clears))
+			// ... and the reference is not dropped on the way to success
+			w, n := (&Cut{Fn: f, From: drops, Target: succeeding}).Run(c)
+			r12.Check(w == "" || len(drops) == 0, q.fn+": the reference to "+field+" is kept on success", f.Pos(), n+1, "", "the scope can be collected while the connection / stream is attached to it", w)
+		}
+		if q.transient {
+			tdrops := findInstrs(f, func(in ssa.Instruction) bool {
+				if !isCallTo(in, decK) {
+					return false
+				}
+				return derivesFrom(callArgs(in.(ssa.CallInstruction))[0], func(v ssa.Value) bool {
+					return isLoadOfField(rmT+".transient")(v) || isLoadOfField(rmT+".allowlistedTransient")(v)
+				})
+			})
+			r12.mustPass(f, q.fn+": on success the transient scope loses the reference of the connection / stream", &Cut{Fn: f, Target: succeeding, Sep: inSet(tdrops)}, len(tdrops))
+			w, n := (&Cut{Fn: f, From: tdrops, Target: failing}).Run(c)
+			r12.Check(w == "", q.fn+": the transient reference is kept when the attachment is refused", f.Pos(), n+1, "", "the transient scope loses a reference it still needs", w)
+		}
+	}
+}
+
+// limitShape: see C03-R9. A comparison counts when one side derives from the configured limit (a Get*Limit call of
+// the limit interface, a ConnCount field) and exactly one of its two edges can no longer reach an accepting return.
+func limitShape(c *Ctx, ru *Rule, min int, keys ...string) {
+	isLimitSrc := func(v ssa.Value) bool {
+		if call, ok := v.(*ssa.Call); ok {
+			name := ""
+			if call.Call.IsInvoke() {
+				name = call.Call.Method.Name()
+			} else if g := call.Call.StaticCallee(); g != nil {
+				name = g.Name()
+			}
+			// (the memory threshold is the limit scaled by the priority: limit*(1+prio)/256, with a big.Int detour)
+			return strings.HasPrefix(name, "Get") && strings.Contains(name, "Limit") || name == "mulInt64WithOverflow" || calleeKey(call) == "(*math/big.Int).Int64"
+		}
+		if fv, ok := v.(*ssa.Field); ok {
+			if st, isSt := fv.X.Type().Underlying().(*types.Struct); isSt && st.Field(fv.Field).Name() == "ConnCount" {
+				return true
+			}
+		}
+		if fl, _ := loadOfField(v); fl != nil && (fl.Name() == "ConnCount") {
+			return true
+		}
+		return false
+	}
+	n := 0
+	for _, k := range keys {
+		f := ru.need(k)
+		if f == nil {
+			continue
+		}
+		isB := func(v ssa.Value) bool { return derivesFrom(v, isLimitSrc) }
+		isA := func(v ssa.Value) bool { return !isB(v) }
+		accepting := func(in ssa.Instruction) bool {
+			ret, ok := in.(*ssa.Return)
+			if !ok {
+				return false
+			}
+			if errResultIndex(f) >= 0 {
+				return isSuccessReturn(ret)
+			}
+			if len(ret.Results) == 1 {
+				if b, isC := constBool(resolveLoad(strip(retVal(ret, 0)))); isC {
+					return b
+				}
+			}
+			return true
+		}
+		for _, b := range blocksDeep(f) {
+			ifi := ifOf(b)
+			if ifi == nil {
+				continue
+			}
+			base, _ := stripNot(ifi.Cond)
+			bo, ok := base.(*ssa.BinOp)
+			if !ok {
+				continue
+			}
+			switch bo.Op {
+			case token.LSS, token.LEQ, token.GTR, token.GEQ:
+			default:
+				continue
+			}
+			if isB(bo.X) == isB(bo.Y) {
+				continue // not total-against-limit
+			}
+			refuses := [2]bool{}
+			for s := 0; s < 2; s++ {
+				w, _ := (&Cut{Fn: b.Parent(), FromEdges: []CFGEdge{{b, s}}, Target: accepting}).Run(c)
+				refuses[s] = w == ""
+			}
+			if refuses[0] == refuses[1] {
+				continue
+			}
+			n++
+			tab := condTable(ifi.Cond, isA, isB)
+			want := [3]tri{triFalse, triFalse, triTrue}
+			if refuses[1] {
+				want = [3]tri{triTrue, triTrue, triFalse}
+			}
+			ru.Check(tab == want, k+": refuses exactly when the prospective total is greater than the limit", instrPos(ifi), 1, "", "off by one at the limit: the last unit is refused, or one unit too many is admitted", fmt.Sprintf("condition under total<limit, =, >: %v %v %v", tab[0], tab[1], tab[2]))
+		}
+	}
+	ru.Check(n >= min, "comparisons of a total with a configured limit", token.NoPos, n, "", "", fmt.Sprint(n))
 }
 
 // embeddingBase: for `x.resourceScope` (a load of the embedded pointer field) returns x.
